@@ -115,7 +115,15 @@ def negatives(rng, n):
         if k < 0.1:
             t = statement(rng, 'INPUT'); t[2] = ['Fluor', num(rng)]
             out.append(('input-fluor', render(t, L) + '\n'))
-        elif k < 0.25:
+        elif k < 0.2:
+            # the fluorophore marker `f` is legal in output lists only
+            kind = rng.choice(['seesaw', 'inputfanout', 'seesawOR', 'seesawAND'])
+            t = statement(rng, kind)
+            lists = [i for i, a in enumerate(t[1]) if isinstance(a, list)]
+            li = lists[0] if kind == 'seesaw' else rng.choice(lists)
+            t[1][li][rng.randrange(len(t[1][li]))] = 'f'
+            out.append(('f-in-input-list:' + kind, render(t, L) + '\n'))
+        elif k < 0.3:
             t = statement(rng, rng.choice(['wireconc', 'gateconc', 'thconc']))
             t[2] = '-' + t[2]
             out.append(('negative-conc', render(t, L) + '\n'))
